@@ -132,6 +132,19 @@ func DrawWorld(d Drawer, p *Profile) WorldOpts {
 		w.Nodes[id] = drawNodeOpts(d, p, id, uniPre, uniCQ, mixed)
 	}
 	if p.UniformTicks {
+		// CheckQuorum must be uniform for bounded liveness: a node without
+		// CheckQuorum/PreVote that ran ahead in term is only pulled back by
+		// the MsgAppResp it sends in response to a lower-term heartbeat, which
+		// it sends only if it has CheckQuorum or PreVote itself, while
+		// CheckQuorum peers ignore its vote requests inside their lease.
+		for _, id := range w.IDs {
+			o := w.Nodes[id]
+			o.CheckQuorum = uniCQ
+			if !o.CheckQuorum {
+				o.LeaseRead = false
+			}
+			w.Nodes[id] = o
+		}
 		// every real deployment uses one ElectionTick/HeartbeatTick for the
 		// whole group; bounded liveness (C15) is only claimed for that.
 		first := w.Nodes[w.IDs[0]]
